@@ -52,13 +52,20 @@ def history(r, nops):
     # compile-time definitions: all four variables (some twice, some attempts duplicated with another value)
     order = list(VARS.items())
     r.shuffle(order)
+    bystander = None
     for name, ty in order:
         v = r.choice(DOM[ty])
         lines.append("cdefine 0 %s %s %s" % (ty, nm(name), val_arg(ty, v))); evs.append({"e": "CDefine", "id": name, "ty": ty, "v": v})
+        if ty == "s" and bystander is None:
+            # a bystander the model does not have: another string external with the SAME compile-time value, never redefined
+            # (identical strings share their storage in the compiled rules); it must keep that value whatever happens to the others
+            bystander = v
+            lines.append("cdefine 0 s by_s %s" % val_arg("s", v))
         if r.random() < 0.3:
             ty2 = r.choice("ibsf"); v2 = r.choice(DOM[ty2])
             lines.append("cdefine 0 %s %s %s" % (ty2, nm(name), val_arg(ty2, v2))); evs.append({"e": "CDefine", "id": name, "ty": ty2, "v": v2})
-    lines.append("add 0 - " + yv.hx(observer_rules().encode()))
+    by_rule = '\nrule by_T : %s { meta: m = "%s" condition: by_s == "%s" }' % ("t_" + (bystander or "none"), bystander or "", bystander or "")
+    lines.append("add 0 - " + yv.hx((observer_rules() + by_rule).encode()))
     lines.append("getrules 0 0"); evs.append({"e": "GetRules"})
     lines.append("cdestroy 0")
     alive = set()
@@ -104,6 +111,8 @@ def observed_vals(matching, strict=False):
                 vals[name] = "<no value of the domain>" if ty == "s" else -999
             if ty == "i" and len(hits) == 1 and ((name + "_Q") in matching) != (vals[name] == 0):
                 vals[name] = -999      # as an `of` quantifier the variable does not behave like its value: no value of the model's domain
+    if strict and "by_T" not in matching:
+        vals["sa"] = "<the bystander string variable lost its compile-time value>"
     return vals
 
 
@@ -296,7 +305,7 @@ def c20(res, tier, seed):
                 cur.append(e)
         records, owner = [], []
         for hi, evs in enumerate(hists):
-            rets = [e for e in per.get(hi, []) if e["e"] in ("CDefine", "RDefine", "SDefine")]
+            rets = [e for e in per.get(hi, []) if e["e"] in ("CDefine", "RDefine", "SDefine") and e.get("id") != "by_s"]
             scans = []
             curm = None
             for e in per.get(hi, []):
